@@ -203,6 +203,8 @@ struct Pend {
     start_step: u32,
     /// step in which the connection this operation works on was established locally (0 = n/a)
     conn_born: u32,
+    /// the connection was accepted locally (the remote host was the connector)
+    conn_accepted: bool,
 }
 
 #[derive(Clone, Debug, PartialEq)]
@@ -277,10 +279,10 @@ impl Ctx {
     fn tick(&self) -> Duration {
         Duration::from_micros(self.sh.tick_us)
     }
-    fn begin(&self, kind: PK, peer: usize, conn_born: u32) -> PendGuard {
+    fn begin(&self, kind: PK, peer: usize, conn_born: u32, conn_accepted: bool) -> PendGuard {
         let id = self.sh.next_op.get();
         self.sh.next_op.set(id + 1);
-        let p = Pend { id, host: self.host, kind, peer, start_step: self.sh.step.get(), conn_born };
+        let p = Pend { id, host: self.host, kind, peer, start_step: self.sh.step.get(), conn_born, conn_accepted };
         self.sh.pend.borrow_mut().insert(id, p.clone());
         PendGuard { sh: self.sh.clone(), p: Some(p) }
     }
@@ -349,11 +351,11 @@ fn err_kind(e: &std::io::Error) -> String {
 type BoxFut = Pin<Box<dyn Future<Output = bool>>>;
 
 /// Interpret `ops`; returns true if a `Return` op was reached.
-fn run_ops(cx: Ctx, ops: Vec<Op>, guard: TaskGuard, stream_in: Option<(TcpStream, usize, u32)>) -> BoxFut {
+fn run_ops(cx: Ctx, ops: Vec<Op>, guard: TaskGuard, stream_in: Option<(TcpStream, usize, u32, bool)>) -> BoxFut {
     Box::pin(async move {
         let _guard = guard;
         let mut listener: Option<TcpListener> = None;
-        let mut stream: Option<(TcpStream, usize, u32)> = stream_in;
+        let mut stream: Option<(TcpStream, usize, u32, bool)> = stream_in;
         let mut udp: Option<UdpSocket> = None;
         let mut nchild = 0usize;
         for op in ops.iter() {
@@ -372,7 +374,7 @@ fn run_ops(cx: Ctx, ops: Vec<Op>, guard: TaskGuard, stream_in: Option<(TcpStream
                 },
                 Op::Accept => {
                     let Some(l) = listener.as_ref() else { continue };
-                    let g = cx.begin(PK::Accept, usize::MAX, 0);
+                    let g = cx.begin(PK::Accept, usize::MAX, 0, false);
                     match l.accept().await {
                         Ok((s, peer)) => {
                             g.finish(Res::Ok(0), None);
@@ -380,7 +382,7 @@ fn run_ops(cx: Ctx, ops: Vec<Op>, guard: TaskGuard, stream_in: Option<(TcpStream
                             cx.log(format!("accepted from {peer}"));
                             cx.tag("accept");
                             cx.sh.evs.borrow_mut().push(Ev::Accepted { host: cx.host, inc: cx.inc, peer });
-                            stream = Some((s, ph, cx.sh.step.get()));
+                            stream = Some((s, ph, cx.sh.step.get(), true));
                         }
                         Err(e) => {
                             g.finish(Res::Err(err_kind(&e)), None);
@@ -391,7 +393,7 @@ fn run_ops(cx: Ctx, ops: Vec<Op>, guard: TaskGuard, stream_in: Option<(TcpStream
                 Op::AcceptLoop { serve } => {
                     let Some(l) = listener.as_ref() else { continue };
                     loop {
-                        let g = cx.begin(PK::Accept, usize::MAX, 0);
+                        let g = cx.begin(PK::Accept, usize::MAX, 0, false);
                         match l.accept().await {
                             Ok((s, peer)) => {
                                 g.finish(Res::Ok(0), None);
@@ -403,7 +405,7 @@ fn run_ops(cx: Ctx, ops: Vec<Op>, guard: TaskGuard, stream_in: Option<(TcpStream
                                 let child = cx.child(nchild);
                                 nchild += 1;
                                 let tg = TaskGuard::new(cx.c(), cx.inc);
-                                tokio::task::spawn_local(run_ops(child, serve.clone(), tg, Some((s, ph, cx.sh.step.get()))));
+                                tokio::task::spawn_local(run_ops(child, serve.clone(), tg, Some((s, ph, cx.sh.step.get(), true))));
                             }
                             Err(e) => {
                                 g.finish(Res::Err(err_kind(&e)), None);
@@ -416,7 +418,7 @@ fn run_ops(cx: Ctx, ops: Vec<Op>, guard: TaskGuard, stream_in: Option<(TcpStream
                 Op::Connect { host, port } => {
                     let ph = *host as usize;
                     let name = cx.sh.names[ph].clone();
-                    let g = cx.begin(PK::Connect, ph, 0);
+                    let g = cx.begin(PK::Connect, ph, 0, false);
                     cx.log(format!("connect {name}:{port} ..."));
                     match TcpStream::connect((name.as_str(), *port)).await {
                         Ok(s) => {
@@ -424,7 +426,7 @@ fn run_ops(cx: Ctx, ops: Vec<Op>, guard: TaskGuard, stream_in: Option<(TcpStream
                             g.finish(Res::Ok(0), la);
                             cx.log(format!("connect {name}:{port} ok local={la:?}"));
                             cx.tag("connect-ok");
-                            stream = Some((s, ph, cx.sh.step.get()));
+                            stream = Some((s, ph, cx.sh.step.get(), false));
                         }
                         Err(e) => {
                             g.finish(Res::Err(err_kind(&e)), None);
@@ -434,10 +436,10 @@ fn run_ops(cx: Ctx, ops: Vec<Op>, guard: TaskGuard, stream_in: Option<(TcpStream
                     }
                 }
                 Op::Write { len, times, gap } => {
-                    let Some((s, ph, born)) = stream.as_mut() else { continue };
+                    let Some((s, ph, born, acc)) = stream.as_mut() else { continue };
                     let buf = vec![cx.inc as u8; *len as usize];
                     for k in 0..*times {
-                        let g = cx.begin(PK::Write, *ph, *born);
+                        let g = cx.begin(PK::Write, *ph, *born, *acc);
                         let r = s.write_all(&buf).await;
                         cx.bump();
                         cx.c().sends.fetch_add(1, Ordering::Relaxed);
@@ -460,10 +462,10 @@ fn run_ops(cx: Ctx, ops: Vec<Op>, guard: TaskGuard, stream_in: Option<(TcpStream
                     }
                 }
                 Op::Read { buf, times, gap } => {
-                    let Some((s, ph, born)) = stream.as_mut() else { continue };
+                    let Some((s, ph, born, acc)) = stream.as_mut() else { continue };
                     let mut b = vec![0u8; (*buf as usize).max(1)];
                     for k in 0..*times {
-                        let g = cx.begin(PK::Read, *ph, *born);
+                        let g = cx.begin(PK::Read, *ph, *born, *acc);
                         let r = s.read(&mut b).await;
                         cx.bump();
                         match r {
@@ -491,11 +493,11 @@ fn run_ops(cx: Ctx, ops: Vec<Op>, guard: TaskGuard, stream_in: Option<(TcpStream
                     }
                 }
                 Op::ReadToEnd { buf } => {
-                    let Some((s, ph, born)) = stream.as_mut() else { continue };
+                    let Some((s, ph, born, acc)) = stream.as_mut() else { continue };
                     let mut b = vec![0u8; (*buf as usize).max(1)];
                     let mut k = 0;
                     loop {
-                        let g = cx.begin(PK::Read, *ph, *born);
+                        let g = cx.begin(PK::Read, *ph, *born, *acc);
                         let r = s.read(&mut b).await;
                         cx.bump();
                         k += 1;
@@ -521,7 +523,7 @@ fn run_ops(cx: Ctx, ops: Vec<Op>, guard: TaskGuard, stream_in: Option<(TcpStream
                     }
                 }
                 Op::Shutdown => {
-                    if let Some((s, _, _)) = stream.as_mut() {
+                    if let Some((s, _, _, _)) = stream.as_mut() {
                         let r = s.shutdown().await;
                         cx.log(format!("shutdown {:?}", r.map_err(|e| e.kind())));
                     }
@@ -583,7 +585,7 @@ fn run_ops(cx: Ctx, ops: Vec<Op>, guard: TaskGuard, stream_in: Option<(TcpStream
                     let Some(s) = udp.as_ref() else { continue };
                     let mut b = [0u8; 16];
                     for _ in 0..*times {
-                        let g = cx.begin(PK::UdpRecv, usize::MAX, 0);
+                        let g = cx.begin(PK::UdpRecv, usize::MAX, 0, false);
                         let r = s.recv_from(&mut b).await;
                         cx.bump();
                         match r {
@@ -1094,6 +1096,11 @@ fn execute(sc: &Scenario, keep: bool) -> RunOut {
                 }
                 match act {
                     Act::Crash => {
+                        for p in sh.pend.borrow().values() {
+                            if victims.contains(&p.host) && p.kind == PK::Connect {
+                                probes.push("victim_connect_pending_at_crash");
+                            }
+                        }
                         sh.log.ev(format!("ctl crash {:?} before step {s}", sel_names));
                         sh.log.tag("crash");
                         sh.log.0.borrow_mut().tag_u64(s as u64);
@@ -1233,7 +1240,10 @@ fn execute(sc: &Scenario, keep: bool) -> RunOut {
                 if !matches!(p.kind, PK::Read | PK::Write) || p.peer >= nh || sc.hosts[p.host].kind == Kind::Victim {
                     continue;
                 }
-                let Some((c, _)) = downs[p.peer].iter().find(|(c, _)| p.conn_born <= *c) else { continue };
+                // a stream the peer opened itself in step c still belongs to the incarnation that went down before
+                // step c (a new incarnation cannot accept before step c+1); a stream the peer *accepted* in step c
+                // may come from the new incarnation (zero latency), so only earlier ones are judged
+                let Some((c, _)) = downs[p.peer].iter().find(|(c, _)| if p.conn_accepted { p.conn_born < *c } else { p.conn_born <= *c }) else { continue };
                 let from = p.start_step.max(*c);
                 // a reader learns of the fault from the FIN / RST emitted at the crash instant (one trip);
                 // a writer parked on credits only from the reset that answers its in-flight data (round trip)
@@ -1544,6 +1554,12 @@ impl Property for C04 {
             }
             let mut f = Vec::new();
             feats(&sc.hosts[0].ops, 0, &mut f);
+            if fin_stuck_trigger(sc) {
+                f.push("victim_writer_can_fill_peer_queue");
+            }
+            if blocked_writer_trigger(sc) {
+                f.push("peer_writes_more_than_capacity");
+            }
             f.sort();
             f.dedup();
             for x in f {
